@@ -25,3 +25,4 @@ import Gittuf.Props.C02b
 #print axioms Gittuf.World.attInForce_eq_attBefore
 #print axioms Gittuf.World.C01_policy_in_force_is_policyBefore
 #print axioms Gittuf.World.C01_att_in_force_is_attBefore
+#print axioms Gittuf.World.F63_witness
